@@ -16,10 +16,29 @@ package transport
 //@   pure
 //@   ensures [C07] result1 == frameStatus(buff, protocol.maxPackageLength) && result0 == frameLen(buff, protocol.maxPackageLength)
 //
-//@ func (*tcpHandler).handleConn
+// handleConn hands one frame to one handler job. The handler gets a context that was built for this frame
+// (allocated during this call), never one shared with another request of the connection (C01: the
+// implementation sees the request context of its own call), and the job is started exactly once, either
+// on the worker pool or on a goroutine of its own; that start is the delivery event of C07.
+//
+//@ func (*tcpHandler).getConnContext
 //@   trusted
+//@   allocates
+//@   ensures result != nil && fresh(ival(result))
+//
+//@ func (*tcpHandler).handleConn$1
+//@   trusted
+//@   noframe
+//
+//@ func (*tcpHandler).handleConn
+//@   requires t != nil && t.config != nil && connSt != nil && (t.config.MaxInvoke > 0 ==> t.pool != nil)
 //@   requires [C07] frameStatus(pkg, protocol.maxPackageLength) == FrameFull && frameLen(pkg, protocol.maxPackageLength) == len(pkg)
 //@   modifies connSt.delivered, connSt.numInvoke
+//@   allocates
+//@   site send#0 assert [C01] fresh(ival(ctx))
+//@   site send#0 ghost connSt.delivered = connSt.delivered ++ pkg
+//@   site handleConn$1#0 assert [C01] fresh(ival(ctx))
+//@   site handleConn$1#0 ghost connSt.delivered = connSt.delivered ++ pkg
 //@   ensures [C07] connSt.delivered == old(connSt.delivered) ++ pkg
 //
 //@ func (*tcpHandler).recv$1
@@ -32,7 +51,7 @@ package transport
 //@   pure
 //
 //@ func (*tcpHandler).recv
-//@   requires t != nil && connSt != nil && t.server != nil && t.config != nil && t.server.config != nil && connSt.conn != nil && t.server.protocol != nil
+//@   requires t != nil && connSt != nil && t.server != nil && t.config != nil && t.server.config != nil && connSt.conn != nil && t.server.protocol != nil && (t.config.MaxInvoke > 0 ==> t.pool != nil)
 //@   requires connSt.delivered == connSt.conn.in
 //@   modifies connSt.delivered, connSt.conn.in, connSt.conn.closed, connSt.idleTime, connSt.numInvoke
 //@   ensures [C07] connSt.conn.closed
